@@ -17,14 +17,16 @@
     is taken by a worker at once, so every C interleaving is a model run.
   * Guards / thresholds / priorities are the GENERATED ones (`Gen.SchedD`).
   * The code is modelled AS IT IS (tree with the `pos_le` repair of `can_emit`
-    and with `discard()`: F2 and F5 of DESIGN 7.1 are repaired, F4 — stale
-    entries of unord_q holding no resource — is still there).  Ghost fields (never read by a
-    guard): `gnext`, `Job.corrupt` …, `taint`.
+    and with `discard()` as of /repo commit b64cc56: F2, F4 and F5 of DESIGN
+    7.1 are repaired).  Ghost fields (never read by a guard): `gnext`,
+    `Job.corrupt` …, `taint`.
   * Heap objects are values: a `struct unord_blk` is carried by the retrieve
     job that owns it (`Job.ub`, = `rb->unord_link`) while that job exists and
-    sits in `orphans` afterwards (job finished: complete entry waiting for the
-    parser; job dropped by `advance()`/FINISH or aborted: an entry nobody will
-    free).  `unord_q` = all entries with `inq`.  The parser's writes through
+    sits in `orphans` afterwards (only a job that FINISHED retrieving leaves
+    one: a complete entry waiting for the parser; `discard(rb)` frees the
+    job's unord_blk with the job, taking it out of unord_q if it is still
+    queued — in this encoding: it simply disappears with the job).  `unord_q` =
+    all entries with `inq`.  The parser's writes through
     `unord_q` update the owning job in place.  Queues are multisets (lists up
     to order); a dequeue takes any element with a minimal key.
 -/
@@ -126,7 +128,6 @@ structure UB where            -- an unord_blk whose retrieve job no longer exist
   base : Nat
   f : UF
   corrupt : Bool              -- ghost
-  dropped : Bool              -- ghost: left behind by `discard()` (holds no resource)
   deriving DecidableEq, Repr, Hashable
 
 structure Job where           -- struct retr_blk
@@ -292,17 +293,6 @@ def newHead (c : Cfg) (s : State) (p : Nat) : Nat :=
 def releaseCount (s : State) (h h' : Nat) : Nat :=
   ((List.range' h (h' - h)).filter (fun k => !attachedTo s k)).length
 
-/-- `discard(rb)`, the unord_blk side ("whoever comes second frees"): if the
-    parser has already flagged the entry (`complete`) it is freed with the
-    job; otherwise it stays behind in unord_q marked `complete`, and the
-    parser frees it when it pops it. -/
-def Job.orphan (j : Job) : List UB :=
-  match j.ub with
-  | none => []
-  | some f =>
-    if f.complete then []
-    else [{ base := j.base, f := { f with complete := true }, corrupt := j.corrupt, dropped := true }]
-
 /-- `advance(bs)`. -/
 def advance (c : Cfg) (s : State) (p : Nat) : State :=
   let h' := newHead c s p
@@ -311,7 +301,6 @@ def advance (c : Cfg) (s : State) (p : Nat) : State :=
     ppos := p, head := h',
     inSlots := s.inSlots + releaseCount s s.head h',
     wu := s.wu + (s.retrQ.filter (fun j => j.curr < ho)).length,
-    orphans := (s.retrQ.filter (fun j => j.curr < ho)).flatMap Job.orphan ++ s.orphans,
     retrQ := s.retrQ.filter (fun j => !(j.curr < ho)),
     scanQ := s.scanQ.filter (fun x => !(x < ho)) }
 
@@ -474,7 +463,7 @@ def parseFinish (s1 : State) (u : Nat) : State :=
     wu := s1.wu + s1.retrQ.length + 1,
     retrQ := [], scanQ := [],
     busy := s1.busy.map (flagPhase all),
-    orphans := popOrphans all (s1.retrQ.flatMap Job.orphan ++ s1.orphans) }
+    orphans := popOrphans all s1.orphans }
 
 /-- how far `parse()` has to read before it can return its verdict -/
 def parseTarget : PRes → Nat
@@ -525,9 +514,10 @@ def stepRetrStart (c : Cfg) (s : State) (j : Job) : Option State :=
 def Job.master (j : Job) : Bool := match j.ub with | none => true | some f => f.complete
 
 /-- `discard(rb)` on the early returns of `do_retrieve` (parsing_done / "found
-    himself redundant" / "was overtaken") -/
-def retrExit (s1 : State) (j : Job) : State :=
-  { s1 with wu := s1.wu + 1, orphans := j.orphan ++ s1.orphans }
+    himself redundant" / "was overtaken"): the job and its unord_blk are gone,
+    the work unit is back -/
+def retrExit (s1 : State) (_j : Job) : State :=
+  { s1 with wu := s1.wu + 1 }
 
 /-- the master moves the parser position -/
 def retrMove (c : Cfg) (s1 : State) (j : Job) (newc : Nat) : State :=
@@ -568,7 +558,7 @@ def retrDone (c : Cfg) (s2 : State) (j : Job) (newc : Nat) : State :=
               orphans :=
                 (match j.ub with
                  | some f => [{ base := j.base, f := { f with complete := true, endp := newc },
-                                corrupt := j.corrupt, dropped := false }]
+                                corrupt := j.corrupt }]
                  | none => []) ++ s2.orphans }
 
 /-- `do_retrieve` from the `sched_lock` in `detach` to the `sched_unlock`
@@ -628,8 +618,8 @@ def scanFind (c : Cfg) (start hi : Nat) : Option Nat :=
   minNat? (c.cand.filter (fun x => decide (start < x) && decide (x ≤ hi)))
 
 /-- "Scanner found a known pattern" / "a unique match" -/
-def scanNew (s1 : State) (x : Nat) : State :=
-  if x ≤ s1.ppos then { s1 with wu := s1.wu + 1 }
+def scanNew (c : Cfg) (s1 : State) (x : Nat) : State :=
+  if x ≤ s1.ppos ∨ x < headOffs c s1 then { s1 with wu := s1.wu + 1 }
   else
     { s1 with
       retrQ := { curr := x, base := x,
@@ -649,7 +639,7 @@ def stepScanEnd (c : Cfg) (s : State) (start k : Nat) : Option State :=
     | none => some { s1 with wu := s1.wu + 1 }
     | some x =>
       if s1.pdone then some { s1 with wu := s1.wu + 1 }
-      else some (scanRequeue c (scanNew s1 x) x hi)
+      else some (scanRequeue c (scanNew c s1 x) x hi)
   else none
 
 def step (c : Cfg) (s : State) (l : Label) : Option State :=
@@ -727,8 +717,6 @@ def unordSize (s : State) : Nat :=
   s.orphans.countP (·.f.inq) + s.retrQ.countP Job.inq + s.busy.countP Phase.inq
 def unordCapOf (c : Cfg) : Nat := unordCap c.n c.totalOut
 
-/-- entries of unord_q whose job `advance()` dropped: they hold no resource (F4) -/
-def staleCount (s : State) : Nat := s.orphans.countP (fun u => u.f.inq && u.dropped)
 
 /-- F5: a retrieve job is queued behind `head_offs` -/
 def staleAttach (c : Cfg) (s : State) : Bool := s.retrQ.any (fun j => j.curr < headOffs c s)
